@@ -322,7 +322,7 @@ PLANS["C08"] = {
     ],
     "thorough": [
         dict(name=st, consts=consts(alphabet=C08_ALPHA + ("edit_del",), steps=9, commits=7, uid=5, lines=4,
-                                    sessions=("S1", "S2")), invariants=[], budget=900, variants=RENDERS, storage=st,
+                                    sessions=("S1",)), invariants=[], budget=700, variants=RENDERS, storage=st,
              per_tag=1, timeout=3000, workers=12) for st in ("default", "local", "notes")
     ] + [
         dict(name="partial-" + st, consts=consts(files=("f", "g"), alphabet=PARTIAL, steps=6, commits=3, lines=3),
